@@ -52,6 +52,8 @@ def jobs(tier, seed):
     for ch in C.chunks(pairs, 8):
         out.append({'fn': 'cmp_units', 'cfg': {'pairs': ch}})
     out.append({'fn': 'cmp_units_user', 'cfg': {}})
+    for ri in range(4):
+        out.append({'fn': 'cmp_after_allocate', 'cfg': {'recv': ri}})
     out.append({'fn': 'cmp_user', 'cfg': {'fa': 'dec', 'fb': 'frac'}})
     out.append({'fn': 'cmp_user', 'cfg': {'fa': 'frac', 'fb': 'dec'}})
     out.append({'fn': 'cmp_pair', 'cfg': {'fa': 'dec', 'fb': 'frac', 'pairs': [['km', 'mi']],
@@ -139,6 +141,39 @@ def cmp_user(E, cfg):
     refs = [q.amount * units[q.unit.symbol][1] for q in lst]
     E.check(E.And(refs[0] <= refs[1], refs[1] <= refs[2]), 'user-sorted-by-reference-value', key='user-cmp:sorted',
             info=[us, vs])
+
+
+def cmp_after_allocate(E, cfg):
+    """quantities that come out of another operation (portions of an allocation, adjusted in steps of a quantum)
+    compare like freshly built ones: by their current value in the reference unit"""
+    from decimalfp import Decimal
+    from quantity import Quantity
+    import quantity.predefined as pre
+    recv = [('kB', pre.DataVolume), ('b', pre.DataVolume), ('MiB', pre.DataVolume), ('lb', pre.Mass)][cfg['recv']]
+    u = C.unit(recv[0])
+    amt = E.choice('amount', ['10', '7.125'])
+    ratios = E.choice('ratios', [[38, 5, 2, 15], [1, 1, 1], [3, 7]])
+    q = Quantity(Decimal(amt), u)
+    portions, rem = q.allocate(ratios)
+    others = [v for v in recv[1].units() if v is not u][:3]
+    x = E.rational('x', 'dec')
+    for i, p in enumerate(portions):
+        ref_p = p.amount * C.scale(p.unit)
+        for v in others:
+            same = Quantity(p.amount * C.scale(u) / C.scale(v), v) if recv[1].quantum is None else p.convert(v)
+            info = [recv[0], amt, ratios, i, v.symbol]
+            E.check(p == same and same == p, 'portion-equals-its-conversion', key='cmp-portion:eq', info=info)
+            E.check(not (p < same) and not (p > same) and p <= same and p >= same, 'portion-order-vs-its-conversion',
+                    key='cmp-portion:order', info=info)
+            o = Quantity(x, v)
+            ref_o = o.amount * C.scale(v)
+            for name, op in OPS:
+                E.check(E.Iff(op(p, o), op(ref_p, ref_o)), 'portion-cmp-%s-agrees-with-reference' % name,
+                        key='cmp-portion:' + name, info=info)
+    lst = sorted(portions + [p.convert(others[0]) for p in portions])
+    refs = [z.amount * C.scale(z.unit) for z in lst]
+    E.check(all(refs[i] <= refs[i + 1] for i in range(len(refs) - 1)), 'portions-sorted-by-reference-value',
+            key='cmp-portion:sorted', info=[recv[0], amt, ratios])
 
 
 def cmp_units_user(E, cfg):
